@@ -616,7 +616,7 @@ def rule_ex8(A: Analysis, rep, F: ExecFacts):
               "EX8", "has_ops covers both queues", ho.node, "", "has_ops() is [%s]" % " | ".join(fmt_conj(c) for c in dd))
     ln = A.fn(EXE + "_InflightOperations.__len__")
     r = [x for x in walk_local(ln.node) if isinstance(x, ast.Return)]
-    rep.check(len(r) == 1 and sorted(norm(x) for x in _sum_terms(r[0].value)) == ["len(self._processes)", "len(self._sync_ops)"],
+    rep.check(len(r) == 1 and sorted(norm(x) for x in _sum_terms(A.expand(r[0].value, ln))) == ["len(self._processes)", "len(self._sync_ops)"],
               "EX8", "len counts processes and sync ops", ln.node, "", "__len__ of the in-flight set is `%s`" % (norm(r[0].value) if r else "?"))
     # exits: breaks only under the stop flag which comes from the two helpers
     brks = [b for b in walk_local(loop) if isinstance(b, ast.Break)]
